@@ -7,7 +7,7 @@ Mirrors `qstrader/simulation/daily_bday.py`, `system/rebalance/{weekly,daily,end
 `pd.date_range(start, end, freq)` is modelled *generatively*, as pandas produces it for the three offsets
 used (`BDay`, `W-<DAY>`, `BME`): roll `start` forward to the offset keeping its time of day, then apply the
 offset repeatedly while the stamp is `≤ end`.  Times are integer seconds since 1970-01-01T00:00:00Z; dates
-before 1970 are out of scope.
+before 1600 are out of scope (months are counted from 1600-01; pandas cannot represent instants before 1677-09-21).
 -/
 
 namespace Qs
@@ -96,16 +96,20 @@ def dailyRebalances (start end_ : Int) (pre : Bool) : List Int :=
 
 def isLeap (y : Int) : Bool := (decide (y % 4 = 0) && !decide (y % 100 = 0)) || decide (y % 400 = 0)
 
-/-- length of month `k` (months counted from 1970-01 = 0) -/
+/-- month indices count from January 1600 (a leap-cycle boundary before the earliest instant pandas can represent,
+1677-09-21): `M0` is the day number of 1600-01-01 -/
+def M0 : Int := -135140
+
+/-- length of month `k` (months counted from 1600-01 = 0) -/
 def monthLen (k : Nat) : Int :=
-  let y : Int := 1970 + (k / 12 : Nat)
+  let y : Int := 1600 + (k / 12 : Nat)
   match k % 12 with
   | 0 => 31 | 1 => if isLeap y then 29 else 28 | 2 => 31 | 3 => 30 | 4 => 31 | 5 => 30
   | 6 => 31 | 7 => 31 | 8 => 30 | 9 => 31 | 10 => 30 | _ => 31
 
 /-- first day number of month `k` -/
 def monthStart : Nat → Int
-  | 0 => 0
+  | 0 => M0
   | k + 1 => monthStart k + monthLen k
 
 /-- walk forward from month `k` (starting on day `s`) to the month containing day `d` -/
@@ -113,8 +117,8 @@ def findMonthFrom (d : Int) : Nat → Nat → Int → Nat × Int
   | 0, k, s => (k, s)
   | fuel + 1, k, s => if d < s + monthLen k then (k, s) else findMonthFrom d fuel (k + 1) (s + monthLen k)
 
-/-- `(k, monthStart k)` for the month containing day `d ≥ 0` -/
-def findMonth (d : Int) : Nat × Int := findMonthFrom d (d.toNat / 28 + 1) 0 0
+/-- `(k, monthStart k)` for the month containing day `d ≥ M0` -/
+def findMonth (d : Int) : Nat × Int := findMonthFrom d ((d - M0).toNat / 28 + 1) 0 M0
 
 /-- last Monday–Friday date of the month `k` that starts on day `s` -/
 def lastBDayOfMonth (k : Nat) (s : Int) : Int :=
@@ -150,9 +154,9 @@ def buyAndHold (start : Int) : List Int :=
 
 /-! ### Calendar date of a day number (for the statistics' year / month / ISO-week grouping) -/
 
-/-- `(year, month 1..12, day-of-month 1..)` of day `d ≥ 0` -/
+/-- `(year, month 1..12, day-of-month 1..)` of day `d ≥ M0` -/
 def civil (d : Int) : Int × Int × Int :=
   let (k, s) := findMonth d
-  (1970 + (k / 12 : Nat), (k % 12 : Nat) + 1, d - s + 1)
+  (1600 + (k / 12 : Nat), (k % 12 : Nat) + 1, d - s + 1)
 
 end Qs
